@@ -18,7 +18,7 @@ import inspect
 
 import z3
 
-from vlib.pyvc import Exc, Executor, Rec, SV, Unsupported, _HK, _hashable, _unhash, fold_template, is_sym
+from vlib.pyvc import Exc, Executor, Rec, SV, Unsupported, _HK, _hashable, _unhash, fold_template, is_sym, render_fstring
 
 
 class XExecutor(Executor):
@@ -62,10 +62,8 @@ class XExecutor(Executor):
                     if not is_sym(key):
                         handled = False
                         break
-                    cont3 = cont
-                    if st3 is not st2:  # the key expression forked: re-evaluate the container in the forked state
-                        cont3 = next(iter(self.ev(t.value, st3, frame)))[1]
-                    cont3[_hashable(key)] = v
+                    cont3 = st3.tr(cont)  # the key expression may have forked: this state's copy of the container
+                    cont3[_hashable(key)] = st3.tr(v)
                     outs.append(st3)
                     handled = True if handled is None else handled
                 if handled is False:
@@ -128,7 +126,7 @@ class XExecutor(Executor):
                 yield st2, vals
                 continue
             if not any(is_sym(x) or isinstance(x, Rec) for x in vals):
-                yield st2, "<f-string>" if holes else text  # only an opaque message (as in the base executor)
+                yield st2, render_fstring(n, vals)  # all holes concrete: the string Python builds (as in the base executor)
                 continue
             text2, vals2 = fold_template(n, vals)  # concrete str/int holes are part of the literal text
             fn = self.func("fmt:" + text2, *(["obj"] * len(vals2)), "obj")
